@@ -1,5 +1,5 @@
 (** C03 — on every correspondence case, agreement with the model implies the list-of-lists specification
-    (corollary of the history theorem for the two lawful harness items). *)
+    (corollary of the history theorem for the three lawful harness items). *)
 From Coq Require Import ZArith List Bool Lia.
 From RlibV Require Import Common.Batch C03.Model C03.Corr C03.Proofs C03.ProofsInst.
 Import ListNotations.
@@ -17,11 +17,14 @@ Qed.
 Theorem model_check_spec_check (c : case) : model_check c = true -> spec_check c = true.
 Proof.
   destruct c as [kind ops ps [o|]]; simpl; [|discriminate].
-  unfold spec_outputs, model_outputs. destruct kind as [|k].
+  unfold spec_outputs, model_outputs. destruct kind as [|[|k]].
   - unfold srun0, run0. destruct (srun ix Z.add zsum [] (map to_op0 ops)) as [[sst outs]|] eqn:E; simpl; [|reflexivity].
     destruct (history _ _ _ _ _ _ _ _ _ isz_lawful ps _ sst outs (conv_fresh _ _ _ _ _ _ _ isz_fresh ops) E) as [H _].
     unfold run_outputs in H. intros Hm. rewrite <- H. exact Hm.
   - unfold srun1, run1. destruct (srun ax amod_act zsum [] (map to_op1 ops)) as [[sst outs]|] eqn:E; simpl; [|reflexivity].
     destruct (history _ _ _ _ _ _ _ _ _ iaa_lawful ps _ sst outs (conv_fresh _ _ _ _ _ _ _ iaa_fresh ops) E) as [H _].
+    unfold run_outputs in H. intros Hm. rewrite <- H. exact Hm.
+  - unfold srun2, run2. destruct (srun hx Z.add hashagg [] (map to_op2 ops)) as [[sst outs]|] eqn:E; simpl; [|reflexivity].
+    destruct (history _ _ _ _ _ _ _ _ _ ihs_lawful ps _ sst outs (conv_fresh _ _ _ _ _ _ _ ihs_fresh ops) E) as [H _].
     unfold run_outputs in H. intros Hm. rewrite <- H. exact Hm.
 Qed.
